@@ -78,43 +78,8 @@ func runC19(c *core.Ctx) {
 		c.Unknown("R1", "Sort/only-stable", "-", "function not found")
 	} else {
 		sortFn := core.SameParamsImpl(p, sortFn) // `Sort(fn, xs)` may be `sortWith(fn, xs, true)`
-		trivial := func(b, s2 *ssa.BasicBlock) bool {
-			iff, ok := b.Instrs[len(b.Instrs)-1].(*ssa.If)
-			if !ok || len(b.Succs) != 2 {
-				return false
-			}
-			for _, cnd := range core.ExpandCond(core.Cond{V: iff.Cond, True: b.Succs[0] == s2, If: iff}) {
-				cmp, isCmp := core.AsCmp(core.Normalize(cnd))
-				if !isCmp {
-					continue
-				}
-				call, isC := core.Resolve(cmp.X).(*ssa.Call)
-				k, isK := cmp.Y.(*ssa.Const)
-				if !isC || !isK || !core.IsBuiltin(&call.Call, "len") {
-					continue
-				}
-				n := k.Int64()
-				if cmp.Op == token.LSS && n <= 2 || cmp.Op == token.LEQ && n <= 1 || cmp.Op == token.EQL && n <= 1 {
-					return true
-				}
-			}
-			return false
-		}
-		min, max := core.PathCountEdges(sortFn.Blocks[0], nil, func(ins ssa.Instruction) int {
-			if call, ok := ins.(*ssa.Call); ok && core.StdCallee(&call.Call) == "sort.SliceStable" {
-				return 1
-			}
-			return 0
-		}, trivial)
-		writes := ""
-		core.InstrsDeep(sortFn, func(_ *ssa.Function, ins ssa.Instruction) {
-			if st, ok := ins.(*ssa.Store); ok {
-				if _, isIA := st.Addr.(*ssa.IndexAddr); isIA {
-					writes = p.InstrPos(ins)
-				}
-			}
-		})
-		c.Check(min == 1 && max == 1 && writes == "", "R1", "Sort/only-stable", p.Pos(sortFn.Pos()), "every path orders the slice by exactly one sort.SliceStable call; no hand-written element moves",
+		okS, min, max, writes := c19onlyStable(p, sortFn)
+		c.Check(okS, "R1", "Sort/only-stable", p.Pos(sortFn.Pos()), "every path orders the slice by exactly one sort.SliceStable call; no hand-written element moves",
 			fmt.Sprintf("fpgo.Sort calls sort.SliceStable %d..%d times on a path with two or more elements, hand-written element store at %q: an ordering path that bypasses the stable sort can change the relative order of equal records", min, max, writes))
 	}
 	// delegating entry points
@@ -143,6 +108,12 @@ func runC19(c *core.Ctx) {
 				return v
 			}
 			reachSort[g] = g == sortFn || core.Reachable(p, g)[sortFn]
+			if !reachSort[g] && p.InRepo(g) && len(g.Blocks) > 0 {
+				// another routine of the library that is itself nothing but one stable sort (a private copy of Sort)
+				if okS, _, _, _ := c19onlyStable(p, g); okS {
+					reachSort[g] = true
+				}
+			}
 			return reachSort[g]
 		}
 		min, _ := core.PathCount(d.fn, func(ins ssa.Instruction) int {
@@ -907,6 +878,12 @@ func c19constructors(c *core.Ctx) {
 				obj = a // &T{...} returned as pointer
 			}
 			if obj == nil {
+				// built elsewhere (e.g. through functional options that carry the flag in a closure): the flow of the
+				// direction is not visible here - not established, and not reported
+				if _, isCall := v.(*ssa.Call); isCall {
+					detail = "delegates the construction (direction not followed through the delegate)"
+					return
+				}
 				ok, detail = false, "the returned descriptor is not an object built in the constructor: cannot see its direction"
 				return
 			}
@@ -984,4 +961,47 @@ func c19constructors(c *core.Ctx) {
 		ok, detail := decide(f, 0)
 		c.Check(ok, "R7", f.Name(), p.Pos(f.Pos()), detail, detail)
 	}
+}
+
+
+// c19onlyStable: fn orders its slice by exactly one sort.SliceStable call on every path that has two or more elements to
+// order, and moves no element by hand.
+func c19onlyStable(p *core.Prog, sortFn *ssa.Function) (bool, int, int, string) {
+	trivial := func(b, s2 *ssa.BasicBlock) bool {
+		iff, ok := b.Instrs[len(b.Instrs)-1].(*ssa.If)
+		if !ok || len(b.Succs) != 2 {
+			return false
+		}
+		for _, cnd := range core.ExpandCond(core.Cond{V: iff.Cond, True: b.Succs[0] == s2, If: iff}) {
+			cmp, isCmp := core.AsCmp(core.Normalize(cnd))
+			if !isCmp {
+				continue
+			}
+			call, isC := core.Resolve(cmp.X).(*ssa.Call)
+			k, isK := cmp.Y.(*ssa.Const)
+			if !isC || !isK || !core.IsBuiltin(&call.Call, "len") {
+				continue
+			}
+			n := k.Int64()
+			if cmp.Op == token.LSS && n <= 2 || cmp.Op == token.LEQ && n <= 1 || cmp.Op == token.EQL && n <= 1 {
+				return true
+			}
+		}
+		return false
+	}
+	min, max := core.PathCountEdges(sortFn.Blocks[0], nil, func(ins ssa.Instruction) int {
+		if call, ok := ins.(*ssa.Call); ok && core.StdCallee(&call.Call) == "sort.SliceStable" {
+			return 1
+		}
+		return 0
+	}, trivial)
+	writes := ""
+	core.InstrsDeep(sortFn, func(_ *ssa.Function, ins ssa.Instruction) {
+		if st, ok := ins.(*ssa.Store); ok {
+			if _, isIA := st.Addr.(*ssa.IndexAddr); isIA {
+				writes = p.InstrPos(ins)
+			}
+		}
+	})
+	return min == 1 && max == 1 && writes == "", min, max, writes
 }
